@@ -430,6 +430,96 @@ func doTogether(w sink, rng *rand.Rand, l layout, ids []int64, G int) {
 	}
 }
 
+// installLayout makes l the layout in force, through the hook or through the public Setup on top of
+// the package defaults (only epochs UseEpoch can express), and returns the event describing it.
+func installLayout(l layout, viaSetup bool, ev string) tr.E {
+	viaSetup = viaSetup && l.epoch < nsEnd
+	if viaSetup {
+		snowflake.VerifSetConfig(1609430400000, 10, false)
+		opts := []snowflake.Option{snowflake.UseEpoch(time.UnixMilli(l.epoch)), snowflake.UseNodeMode(snowflake.NodeBitsMode(l.nb))}
+		if l.low {
+			opts = append(opts, snowflake.NodeAtLowest())
+		}
+		snowflake.Setup(opts...)
+	} else {
+		snowflake.VerifSetConfig(l.epoch, l.nb, l.low)
+	}
+	return tr.E{"ev": ev, "nb": int(l.nb), "low": l.low, "epoch": limbs(l.epoch), "grp": "switch", "setup": viaSetup}
+}
+
+// doSwitching: the SAME inputs - the same instants (hence the same date-form seconds and the same
+// time ranges) and the same low bits - are pushed through consecutive layouts back to back:
+// layout A, call; layout B, same call; back to A; ... with nothing else in between.  Every result
+// must be the one of the layout in force, so anything the package remembers from an earlier call
+// must not survive a change of epoch, node width or node placement.  One trace per history; layout
+// changes inside it are `layout` events.
+func doSwitching(w sink, rng *rand.Rand, hist int) {
+	restore := snowflake.VerifSetConfig(1609430400000, 10, false)
+	defer restore()
+	eps := []int64{ms(2000, 1, 1, 0, 0, 0, 0, time.UTC), 1609430400000, ms(2024, 2, 29, 23, 59, 59, 777, time.UTC),
+		ms(2010, 5, 5, 5, 5, 5, 0, shanghai), time.Now().UnixNano() / 1000000}
+	for h := 0; h < hist; h++ {
+		// 2-4 layouts that differ in one or several of epoch / node width / placement
+		base := layout{eps[rng.Intn(len(eps))], []uint8{10, 9, 8}[rng.Intn(3)], rng.Intn(2) == 0}
+		ls := []layout{base}
+		for k := 1 + rng.Intn(3); k > 0; k-- {
+			l := ls[rng.Intn(len(ls))]
+			switch rng.Intn(4) {
+			case 0:
+				l.epoch = eps[rng.Intn(len(eps))]
+			case 1:
+				l.nb = []uint8{10, 9, 8}[rng.Intn(3)]
+			case 2:
+				l.low = !l.low
+			default:
+				l = layout{eps[rng.Intn(len(eps))], []uint8{10, 9, 8}[rng.Intn(3)], rng.Intn(2) == 0}
+			}
+			ls = append(ls, l)
+		}
+		// instants every one of these layouts can express (all epochs lie before 2027, 41 bits = 69 years)
+		var abss []int64
+		for k := 0; k < 1+rng.Intn(3); k++ {
+			abss = append(abss, ms(2027+rng.Intn(40), time.Month(1+rng.Intn(12)), 1+rng.Intn(28), rng.Intn(24),
+				rng.Intn(60), rng.Intn(60), rng.Intn(1000), shanghai))
+		}
+		lowbits := rng.Int63n(1 << 20)
+		what := rng.Intn(5) // which function family this history hammers (4: all of them)
+		cur := -1
+		for step := 0; step < 6+rng.Intn(10); step++ {
+			// next layout: usually another one; sometimes the same one installed again
+			nxt := rng.Intn(len(ls))
+			if nxt == cur && rng.Intn(3) > 0 {
+				nxt = (nxt + 1) % len(ls)
+			}
+			cur = nxt
+			l := ls[cur]
+			ev := "layout"
+			if step == 0 {
+				ev = "reset"
+			}
+			w.Emit(installLayout(l, rng.Intn(2) == 0, ev))
+			abs := abss[rng.Intn(len(abss))]
+			if rng.Intn(4) == 0 { // another millisecond of the same second
+				abs = abs - abs%1000 + int64(rng.Intn(1000))
+			}
+			id := (abs-l.epoch)<<l.tshift() | lowbits&l.lowMax()
+			if what == 0 || what == 4 {
+				doDate(w, l, id)
+			}
+			if what == 1 || what == 4 {
+				doID(w, l, id)
+				doPair(w, id, id+1+rng.Int63n(1<<12))
+			}
+			if what == 2 || what == 4 {
+				doRangeAt(w, instantIn(rng, abs, zones[rng.Intn(len(zones))]), instantIn(rng, abs+int64(rng.Intn(3000)), zones[rng.Intn(len(zones))]))
+			}
+			if what == 3 { // the date form produced under one layout, decoded right after the change back
+				doDatesRetained(w, l, []int64{id, id + 1})
+			}
+		}
+	}
+}
+
 func main() {
 	out := flag.String("out", "codec.ndjson", "trace file")
 	seed := flag.Int64("seed", 1, "seed")
@@ -438,6 +528,7 @@ func main() {
 	npair := flag.Int("pairs", 150, "random pairs per layout")
 	nrange := flag.Int("ranges", 120, "intervals per layout")
 	nep := flag.Int("epochs", 3, "epochs per layout")
+	nswitch := flag.Int("switch", 400, "histories that push the same inputs through changing layouts")
 	flag.Parse()
 	rng := rand.New(rand.NewSource(*seed))
 	w := tr.Create(*out)
@@ -606,6 +697,7 @@ func main() {
 			}
 		}
 	}
+	doSwitching(w, rng, *nswitch)
 	w.Close()
-	fmt.Printf("events=%d layouts=%d\n", w.N(), nlay)
+	fmt.Printf("events=%d layouts=%d switching=%d\n", w.N(), nlay, *nswitch)
 }
